@@ -34,7 +34,7 @@ MARKERS = {
 }
 
 
-def install_delays(seed, max_ms, prob):
+def install_delays(seed, max_ms, prob, fixed=None):
     import annet.parallel as ap
     fname = os.path.realpath(ap.__file__)
     with open(fname) as f:
@@ -60,6 +60,12 @@ def install_delays(seed, max_ms, prob):
             import multiprocessing as mp
             state["rng"] = random.Random("%s/%s/%d" % (seed, mp.current_process().name, state["n"]))
         r = state["rng"]
+        if fixed and name in fixed:
+            state["n"] += 1
+            time.sleep(fixed[name] / 1000.0)  # a deterministic delay at one marker (e.g. a slow trace flush before a worker retires)
+            if state["n"] <= 200:
+                log("inject", at=name, ms=fixed[name])
+            return None
         if r.random() < prob:
             d = r.random() * max_ms / 1000.0
             state["n"] += 1
@@ -93,9 +99,24 @@ def main():
     salt = spec.get("salt", 7)
     big = spec.get("big_payload", 0)
 
+    net_always = set(spec.get("net_always", []))    # raise a network error on every attempt
+    net_wrapped = set(spec.get("net_wrapped", []))  # raise an error whose __context__ is a network error, on every attempt
+    net_flaky = {int(k): v for k, v in spec.get("net_flaky", {}).items()}  # id -> number of failing attempts before success
+    attempts = {}
+
     def f(dev_id):
         import multiprocessing as mp
         log("start", id=dev_id, worker=mp.current_process().name)
+        attempts[dev_id] = attempts.get(dev_id, 0) + 1
+        if dev_id in net_always:
+            raise (ConnectionResetError if dev_id % 2 else BrokenPipeError)("net %s" % dev_id)
+        if dev_id in net_wrapped:
+            try:
+                raise BrokenPipeError("inner %s" % dev_id)
+            except BrokenPipeError:
+                raise RuntimeError("wrapped %s" % dev_id)
+        if attempts[dev_id] <= net_flaky.get(dev_id, 0):
+            raise ConnectionResetError("flaky %s attempt %d" % (dev_id, attempts[dev_id]))
         d = task_ms
         if task_jitter:
             d = (dev_id * 2654435761 % 1000) / 1000.0 * task_ms * 2
@@ -127,7 +148,7 @@ def main():
 
     points = []
     if spec.get("inject"):
-        points = install_delays(spec["inject"]["seed"], spec["inject"]["max_ms"], spec["inject"]["prob"])
+        points = install_delays(spec["inject"]["seed"], spec["inject"]["max_ms"], spec["inject"]["prob"], spec["inject"].get("fixed"))
     log("submit", ids=ids, points=points)
     p = Parallel(f).tune(parallel=pool, max_tasks=max_tasks)
     p.add_callback(in_thread_cb, in_thread=True)
